@@ -99,6 +99,11 @@ def _create_name_annotation(name: str) -> str:
     return f'@PythonName("{name}")'
 
 
+def _replace_if_safeds_keyword_in_path(path: str) -> str:
+    """Escape every segment of a dotted package path that is a Safe-DS keyword."""
+    return ".".join(_replace_if_safeds_keyword(segment) for segment in path.split("."))
+
+
 def _replace_if_safeds_keyword(keyword: str) -> str:
     if keyword in {
         "_",
